@@ -4,6 +4,7 @@ import (
 	"fmt"
 	"go/ast"
 	"go/token"
+	"go/types"
 	"strings"
 
 	hast "github.com/aymerick/raymond/ast"
@@ -633,6 +634,27 @@ func checkInheritance(c *Ctx, r *Report) {
 			}
 			if !ok {
 				viol = fmt.Sprintf("%s: the configured default security is applied on a path where the controller's own @Security list is not known to be empty", w.pos(dc.Pos()))
+			}
+			// ... and whenever it is empty: nothing else decides whether the default applies
+			// (an error test or a nil test of the configuration aside)
+			for _, f := range guardsOf(dc.(ssa.Instruction)) {
+				cnd, pol := unwrapNot(f.Cond, f.Pol)
+				if e, arg := lenEmptiness(cnd, pol); e != 0 && sliceOf(arg).Calls["core/metadata.GetSecurityFromContext"] {
+					continue
+				}
+				if bo, isB := cnd.(*ssa.BinOp); isB && (isNilConst(bo.X) || isNilConst(bo.Y)) {
+					other := bo.X
+					if isNilConst(other) {
+						other = bo.Y
+					}
+					if types.Identical(other.Type(), types.Universe.Lookup("error").Type()) {
+						continue
+					}
+					if a := sliceOf(other); a.hasFieldNamed("GleeceConfig") && len(a.Calls) == 0 && len(a.Fields) == 1 {
+						continue
+					}
+				}
+				viol = fmt.Sprintf("%s: whether the configured default security applies to a controller without @Security also depends on another condition (%s): such controllers and their methods are served without the default although it is configured (and documented)", w.pos(dc.Pos()), w.pos(instrPos(f.From)))
 			}
 			if a := sliceOf(dc.Common().Args[0]); !a.hasFieldNamed("GleeceConfig") {
 				viol = fmt.Sprintf("%s: GetDefaultSecurity is not given ctx.GleeceConfig", w.pos(dc.Pos()))
